@@ -79,6 +79,11 @@ func fmtVal(v any) string {
 			return "nil"
 		}
 		return fmt.Sprintf("l%d", t[0])
+	case func():
+		if t == nil {
+			return "nil"
+		}
+		return "?func"
 	case int:
 		return fmt.Sprintf("i%d", t)
 	case string:
@@ -219,7 +224,7 @@ func (x *notExec) recv(g string, t int) (stopped bool) {
 	if t != 0 {
 		cases = append(cases, reflect.SelectCase{Dir: reflect.SelectRecv, Chan: reflect.ValueOf(x.targets[t])})
 	} else {
-		for k := 1; k <= 5; k++ {
+		for k := 1; k <= 6; k++ {
 			cases = append(cases, reflect.SelectCase{Dir: reflect.SelectRecv, Chan: reflect.ValueOf(x.targets[k])})
 		}
 	}
@@ -244,7 +249,7 @@ func genNotScenario(rng *rand.Rand, profile, mode string) any {
 	perm := rng.Perm(5)
 	ns := 2 + rng.Intn(4)
 	for i := 0; i < ns; i++ {
-		op := NOp{K: "sub", Key: keys[rng.Intn(3)%2], T: perm[i%5] + 1}
+		op := NOp{K: "sub", Key: keys[rng.Intn(3)%2], T: perm[i%5] + 1 + (i/5)}
 		if rng.Intn(2) == 0 {
 			op.Ctx = 1 + rng.Intn(sc.NCtx)
 		}
@@ -270,18 +275,18 @@ func genNotScenario(rng *rand.Rand, profile, mode string) any {
 					op.Ctx = 1 + rng.Intn(sc.NCtx)
 				}
 			case r < 60:
-				op = NOp{K: "recv", T: 1 + rng.Intn(5)}
+				op = NOp{K: "recv", T: 1 + rng.Intn(6)}
 			case r < 72:
 				op = NOp{K: "cancel", Ctx: 1 + rng.Intn(sc.NCtx)}
 			case r < 80:
-				op = NOp{K: "sub", Key: keys[rng.Intn(3)%2], T: 1 + rng.Intn(5)}
+				op = NOp{K: "sub", Key: keys[rng.Intn(3)%2], T: 1 + rng.Intn(6)}
 				if rng.Intn(2) == 0 {
 					op.Ctx = 1 + rng.Intn(sc.NCtx)
 				}
 			case r < 86:
 				// (its own key: the library's goroutine panics - and kills the process - when somebody else
 				// unsubscribes a SubscribeCancel registration first, which is misuse, so "unsub" never touches it)
-				op = NOp{K: "subc", Key: "c", T: 1 + rng.Intn(5)}
+				op = NOp{K: "subc", Key: "c", T: 1 + rng.Intn(6)}
 				if rng.Intn(2) == 0 {
 					op.Ctx = 1 + rng.Intn(sc.NCtx)
 				}
@@ -292,7 +297,7 @@ func genNotScenario(rng *rand.Rand, profile, mode string) any {
 					op = NOp{K: "recv", T: op.T}
 				}
 			default:
-				op = NOp{K: "unsub", Key: keys[rng.Intn(3)%2], T: 1 + rng.Intn(5)}
+				op = NOp{K: "unsub", Key: keys[rng.Intn(3)%2], T: 1 + rng.Intn(6)}
 			}
 			ops = append(ops, op)
 		}
@@ -304,7 +309,7 @@ func genNotScenario(rng *rand.Rand, profile, mode string) any {
 func runNotExec(execID int, sci any, e *Env) []rec.Ev {
 	sc := sci.(*NScenario)
 	x := &notExec{e: e, n: new(bigbuff.Notifier), stop: make(chan struct{}), subc: map[string]subcInfo{}}
-	x.targets = []any{nil, make(chan int), make(chan any, 1), make(chan *int), make(chan string), make(chan harnessInts)}
+	x.targets = []any{nil, make(chan int), make(chan any, 1), make(chan *int), make(chan string), make(chan harnessInts), make(chan func())}
 	x.ctxs = make([]context.Context, sc.NCtx+1)
 	x.cancels = make([]context.CancelFunc, sc.NCtx+1)
 	for i := 1; i <= sc.NCtx; i++ {
